@@ -52,24 +52,27 @@ Refs == {<<src, id, doc>> : src \in Importers, id \in Ids, doc \in Docs}
 
 ---------------------------------------------------------------------------
 (* short-name references: sn is a record
-     [adop, astruct, vdop, ni : BOOLEAN]
+     [gdop, adop, astruct, vdop, ni : BOOLEAN]
    A defines a DOP n / a structure n, V defines a DOP n, V's PARENT-REF excludes n.
    A request of A (inherited by V) and a request of V both say DOP-SNREF n.       *)
-ViewA(s) == (IF s.adop THEN {"A.dop"} ELSE {}) \cup (IF s.astruct THEN {"A.struct"} ELSE {})
+\* G (a functional group) is the parent of A; it may define a DOP n and then has a request with DOP-SNREF n of its own
+DopOfA(s) == IF s.adop THEN {"A.dop"} ELSE IF s.gdop THEN {"G.dop"} ELSE {}
+ViewA(s) == DopOfA(s) \cup (IF s.astruct THEN {"A.struct"} ELSE {})
 ViewV(s) == IF s.vdop THEN {"V.dop"} \cup (IF s.ni THEN {} ELSE (IF s.astruct THEN {"A.struct"} ELSE {}))
             ELSE IF s.ni THEN {} ELSE ViewA(s)
 \* a local DOP n overrides the inherited DOP n; an inherited structure of the same name is a different category
 Unique(S) == IF Cardinality(S) = 1 THEN CHOOSE x \in S : TRUE ELSE "Unresolved"
+SnTargetG(s) == IF s.gdop THEN "G.dop" ELSE "none"     \* the reference in G's request, as loaded
 SnTargetA(s) == Unique(ViewA(s))          \* the reference in A's request, as loaded
-SnTargetV(s) == Unique(ViewV(s))          \* the reference in V's request; and A's reference after re-targeting to V
+SnTargetV(s) == Unique(ViewV(s))          \* the reference in V's request; and A's and G's references after re-targeting to V
 
 ---------------------------------------------------------------------------
-NoSn == [adop |-> FALSE, astruct |-> FALSE, vdop |-> FALSE, ni |-> FALSE]
+NoSn == [gdop |-> FALSE, adop |-> FALSE, astruct |-> FALSE, vdop |-> FALSE, ni |-> FALSE]
 Init == phase = "pick" /\ defs = {} /\ imports = {} /\ sn = NoSn
 PickIds == \E d \in SUBSET (LayerNames \X Ids), im \in SUBSET Importers :
               phase = "pick" /\ defs' = d /\ imports' = im /\ sn' = NoSn /\ phase' = "ids"
-PickSn == \E a, b, c, n \in BOOLEAN :
-              phase = "pick" /\ sn' = [adop |-> a, astruct |-> b, vdop |-> c, ni |-> n] /\ phase' = "sn" /\ UNCHANGED <<defs, imports>>
+PickSn == \E g, a, b, c, n \in BOOLEAN :
+              phase = "pick" /\ sn' = [gdop |-> g, adop |-> a, astruct |-> b, vdop |-> c, ni |-> n] /\ phase' = "sn" /\ UNCHANGED <<defs, imports>>
 Next == PickIds \/ PickSn
 Spec == Init /\ [][Next]_vars
 
